@@ -173,6 +173,7 @@ def r14_2(ctx, prog, crate):
         # the action handed to run_tree is the parameter
         a = {s.label() for s in ra.prov.op_src(rt[0].args[1])}
         ctx.check(a == {"param:" + ra.param_name(2)}, "R14.2", ["run_action", "run_tree-gets-action"], "run_tree gets %s" % sorted(a), rt[0].line())
+    requested_action_governs(ctx, "R14.2", prog, crate)
     tl = prog.body("divan::Divan::run_tree_list", crate)
     if ctx.anchor("R14.2", "Divan::run_tree_list", 1 if tl else 0, 1):
         bodies, ext, ind = prog.callee_closure([tl], crate=crate)
@@ -210,6 +211,41 @@ def leaf_arm(prog, b, crate):
             parent = otherwise
         out.append((bi, leaf, parent))
     return out
+
+
+def requested_action_governs(ctx, rule, prog, crate):
+    """The action an entry point asks for (run_benches -> Bench, test_benches -> Test, list_benches -> List, main -> the
+    configured one) is THE action of the run: inside run_action the configured `self.action` is never consulted, and the
+    SharedContext every benchmark reads its mode from (initial_mode: is_test, stats: is_bench) is built with the
+    parameter.  Shared by R14.2 and R03.7."""
+    ra = prog.body("divan::Divan::run_action", crate)
+    if not ctx.anchor(rule, "Divan::run_action", 1 if ra else 0, 1):
+        return
+    aggs = [(bi, s) for bi, si, s in ra.stmts() if s["k"] == "assign" and s["rv"]["k"] == "agg" and s["rv"]["ak"] == "adt" and norm(s["rv"]["adt"]).endswith("SharedContext")]
+    if ctx.check(len(aggs) == 1 and "action" in aggs[0][1]["rv"].get("fields", []), rule, ["run_action", "one-SharedContext"],
+                 "SharedContext aggregates in run_action: %d" % len(aggs), ra.where(0)):
+        bi, s = aggs[0]
+        o = s["rv"]["ops"][s["rv"]["fields"].index("action")]
+        srcs = ra.prov.op_src(o)
+        lab = {z.label() for z in srcs if z.kind in ("param", "const", "variant", "call")}
+        ctx.check(lab == {"param:" + ra.param_name(2)} and not any(z.kind == "phi" for z in srcs), rule, ["run_action", "shared-context-gets-requested-action"],
+                  "SharedContext.action is %s, expected the `action` parameter of run_action (the mode every benchmark runs in)" % sorted(lab), ra.where(bi))
+    reads = []
+    for x in prog.closure_tree(ra):
+        for bi, si, s in x.stmts():
+            if s["k"] != "assign":
+                continue
+            rv = s["rv"]
+            pl = rv.get("p") if rv["k"] in ("ref", "discr") else (rv["o"].get("p") if rv["k"] in ("use", "cast") and rv.get("o", {}).get("k") in ("copy", "move") else None)
+            if pl is not None and pl["l"] == 1 and x is ra and place_fields_(pl)[:1] == ("action",):
+                reads.append(x.where(bi))
+    ctx.check(not reads, rule, ["run_action", "configured-action-not-consulted"],
+              "run_action reads self.action (%s): the action requested by the entry point can be overridden by the configured one" % reads, ra.where(0))
+
+
+def place_fields_(p):
+    from lib.facts import place_fields
+    return place_fields(p)
 
 
 def r14_3(ctx, prog, crate):
